@@ -206,6 +206,7 @@ func main() {
 	wShards := flag.Int("shards", 1, "internal")
 	wFrom := flag.Int("from", 0, "internal")
 	wExample := flag.Bool("example", true, "internal")
+	flag.BoolVar(&evalOnly, "evalonly", false, "internal")
 	flag.Parse()
 	if *worker {
 		workerMain(*wCases, *wRoot, *wShard, *wShards, *wFrom, *wExample)
@@ -266,6 +267,48 @@ func main() {
 			cases = append(cases, DCase{Stream: "random", Name: d.Name, Design: d})
 		}
 	}
+	// hostile-mapping stream: evaluate every single-deviation design (cheap), keep the accepted ones
+	var packMembers = map[string][]DCase{}
+	if replayInput == nil && *only != "names" {
+		hs := hostileDesigns()
+		evalOnly = true
+		evs, err := runBatch(hs, filepath.Join(*out, "hostile-eval"), *repo, *stubs, false)
+		evalOnly = false
+		if err != nil {
+			fmt.Println("hostile evaluation failed:", err)
+			os.Exit(3)
+		}
+		var clean []DCase
+		flagged := 0
+		for i, c := range hs {
+			res.Count("hostile_eval=" + evs[i].Stage)
+			kind := strings.SplitN(strings.TrimPrefix(c.Name, "h_"), "_", 2)[0]
+			res.Count("hostile_eval[" + kind + "]=" + evs[i].Stage)
+			switch evs[i].Stage {
+			case "accepted":
+				if len(designFeatures(c.Design)) > 0 {
+					cases = append(cases, c)
+					flagged++
+				} else {
+					clean = append(clean, c)
+				}
+			case "eval-panic":
+				// a crash of the DSL engine is property C12's subject; recorded, not judged here
+				res.Count("hostile_eval_panic:" + c.Name)
+			}
+		}
+		for _, pk := range packHostile(clean, 12) {
+			lo := len(packMembers) * 12
+			hi := lo + 12
+			if hi > len(clean) {
+				hi = len(clean)
+			}
+			packMembers[pk.Name] = clean[lo:hi]
+			cases = append(cases, pk)
+		}
+		res.Extra["hostile"] = map[string]int{"designs": len(hs), "accepted_with_finding_feature": flagged, "accepted_clean_packed": len(clean), "packs": len(packMembers)}
+		os.RemoveAll(filepath.Join(*out, "hostile-eval"))
+	}
 	run := &designRun{root: filepath.Join(*out, "shrink"), repo: *repo, stubs: *stubs}
 	built, accepted := 0, 0
 	designDistinct := vh.Distinct{}
@@ -285,7 +328,43 @@ func main() {
 			verdicts = append(verdicts, vs...)
 		}
 	}
+	// a pack that is not "ok": its members one by one, so that the failing input is one deviation
+	{
+		var again []DCase
+		for i, c := range cases {
+			if c.Stream == "hostile-pack" && verdicts[i].Stage != "ok" {
+				again = append(again, packMembers[c.Name]...)
+			}
+		}
+		if len(again) > 0 {
+			vs, err := runBatch(again, filepath.Join(*out, "batch-unpacked"), *repo, *stubs, true)
+			if err != nil {
+				fmt.Println("batch failed:", err)
+				os.Exit(3)
+			}
+			anyFail := false
+			for _, v := range vs {
+				if v.Stage != "ok" {
+					anyFail = true
+				}
+			}
+			if anyFail {
+				// the single deviations are the failing inputs; the packs themselves are dropped
+				var kc []DCase
+				var kv []Verdict
+				for i, c := range cases {
+					if c.Stream == "hostile-pack" && verdicts[i].Stage != "ok" {
+						continue
+					}
+					kc, kv = append(kc, c), append(kv, verdicts[i])
+				}
+				cases, verdicts = append(kc, again...), append(kv, vs...)
+			}
+			// otherwise every member builds alone and only the combination fails: the pack stays as the failing input
+		}
+	}
 	shrunk := 0
+	var pending []vh.Failure // design failures; recorded below, unlisted signatures first, at most 3 per signature
 	type caseRec struct {
 		Stream, Name, Stage, Signature string
 		Features                       []string
@@ -299,7 +378,7 @@ func main() {
 			res.Count("feature=" + f)
 		}
 		rec := caseRec{Stream: c.Stream, Name: c.Name, Stage: v.Stage}
-		if c.Stream != "witness" {
+		if c.Stream != "witness" && c.Stream != "hostile" {
 			if ev := envelopeViolations(c.Design); len(ev) > 0 && c.Stream != "replay" {
 				res.Count("outside_envelope[" + c.Stream + "]")
 				rec.Features = ev
@@ -324,7 +403,7 @@ func main() {
 			sig := classify(c.Design, v)
 			rec.Signature = sig
 			d := c.Design
-			if strings.HasPrefix(sig, "unlisted:") && c.Stream != "witness" && shrunk < 2 {
+			if strings.HasPrefix(sig, "unlisted:") && c.Stream != "witness" && c.Stream != "hostile" && shrunk < 2 {
 				shrunk++
 				d = shrink(run, c.Design, sig, 24)
 			}
@@ -333,7 +412,7 @@ func main() {
 			if len(errs) > 8 {
 				errs = errs[:8]
 			}
-			res.Fail(sig, what, map[string]any{"design": d, "stream": c.Stream, "stage": v.Stage, "message": v.Msg, "diagnostics": errs, "expected_signature": c.Expect})
+			pending = append(pending, vh.Failure{Signature: sig, What: what, Input: map[string]any{"design": d, "stream": c.Stream, "stage": v.Stage, "message": v.Msg, "diagnostics": errs, "expected_signature": c.Expect}})
 		}
 		recs = append(recs, rec)
 		if c.Stream == "random" && i%13 == 0 {
@@ -341,6 +420,14 @@ func main() {
 		}
 	}
 	os.RemoveAll(run.root)
+	// vh.Result keeps at most 200 failures: the failing inputs nobody has listed must never be the ones dropped
+	sort.SliceStable(pending, func(i, j int) bool {
+		ui, uj := strings.HasPrefix(pending[i].Signature, "unlisted:"), strings.HasPrefix(pending[j].Signature, "unlisted:")
+		return ui && !uj
+	})
+	for _, f := range pending {
+		failCapped(res, f.Signature, f.What, f.Input)
+	}
 
 	res.Evaluations = st.goify + st.camel + st.scope + len(cases)
 	res.Distinct = len(st.distinct) + len(designDistinct)
